@@ -102,6 +102,10 @@ def check(ctx):
     check_read_shapes(ctx, W1, ["acmed::acme_proto::structs::authorization::Authorization", "acmed::acme_proto::structs::authorization::AuthorizationStatus",
                                 "acmed::acme_proto::structs::authorization::Challenge", "acmed::acme_proto::structs::authorization::TokenChallenge",
                                 "acmed::acme_proto::structs::authorization::ChallengeStatus", "acmed::acme_proto::structs::order::Identifier", "acmed::identifier::IdentifierType"])
+    # the authorization's identifier is looked up among the configured ones BY VALUE: both sides must be in canonical form, i.e. the
+    # configured value is normalised at load (C01.R4)
+    from . import c01 as _c01
+    ctx.shared("C01", lambda c_: _c01.normalisation_rule(c_, c_.rule("R4", "[shared with C01] configured identifiers are stored in canonical form (lower-case A-labels, canonical address text)")))
     b = prog.async_body(RC)
     R1 = ctx.rule("R1", "the CA is told a challenge is ready only after its challenge hooks succeeded")
     ready = [c for c in b.calls_to("acmed::acme_proto::http::post_jose_no_response") if any(x.is_(SC + "::get_url") for x in arg_origins(c, 2).calls)]
@@ -568,6 +572,10 @@ def wildcard(ctx):
     for c in gi:
         ctx.require(R5, len(c.args) >= 3 and (AUTH, "wildcard") in arg_origins(c, 2).fields, c.where(), "the lookup receives authorization.wildcard", [RC, "wildcard-passed"])
         ctx.require(R5, (AUTH, "identifier") in arg_origins(c, 1).fields, c.where(), "… and authorization.identifier.value", [RC, "identifier-passed"])
+        # the VALUE of the flag, not its presence: `"wildcard": false` is an ordinary authorization (RFC 8555 7.1.4: absent = false)
+        wsl = arg_origins(c, 2)
+        presence = sorted(v.rsplit("::", 1)[-1] for v in wsl.via if v.rsplit("::", 1)[-1] in ("is_some", "is_none", "is_some_and", "is_none_or") and "option::Option" in v)
+        ctx.require(R5, not presence, c.where(), "the lookup receives the value of authorization.wildcard (absent = false), not whether the member is present (%s)" % presence, [RC, "wildcard-presence"])
     # the lookup itself is EVALUATED on concrete identifier lists (abstract interpretation with concrete strings and lists, iterator
     # chains and closures included): a name and its wildcard in both configuration orders x both values of the flag, each alone,
     # an unrelated name, an IP identifier, and an absent identifier — whatever the shape of the code
